@@ -512,6 +512,27 @@ func (g *gen) genProvide(s int) Op {
 			pl = pl[:len(pl)-1]
 		}
 	}
+	if g.k.AvoidDecoCycle {
+		// a constructor must not close a resolution cycle through a
+		// decorator (known finding KF-DECO-CYCLE): drop parameters until
+		// it does not
+		for len(pl) > 0 {
+			probe := NewMFn(&Fn{ID: f.ID, R: f.R}, o, KCtor, s)
+			for _, l := range pl {
+				probe.Leaves = append(probe.Leaves, MLeaf{Key: l.key, Opt: l.opt, Soft: l.soft, IsGroup: l.key.Group != ""})
+			}
+			if g.m.DupProvide(probe) != "" {
+				break
+			}
+			g.m.AddCtor(probe)
+			bad := g.anyDecoCycle()
+			g.removeCtor(probe)
+			if !bad {
+				break
+			}
+			pl = pl[:len(pl)-1]
+		}
+	}
 	f.P = g.encodeParams(pl)
 	g.errAndVariadic(f)
 	g.faults(f)
@@ -616,19 +637,7 @@ func (g *gen) genDecorate(s int) (Op, bool) {
 			// tentatively add, check for a decorator cycle from every
 			// registered function in the subtree; retract if found.
 			g.m.AddDeco(mf)
-			bad := false
-			for _, sc := range g.m.Scopes {
-				for _, c := range sc.Ctors {
-					if g.m.FindCycles(c).DecoCycle {
-						bad = true
-					}
-				}
-				for _, d := range sc.DecoL {
-					if g.m.FindCycles(d).DecoCycle {
-						bad = true
-					}
-				}
-			}
+			bad := g.anyDecoCycle()
 			if bad {
 				g.removeDeco(mf)
 				return Op{}, false
@@ -638,6 +647,33 @@ func (g *gen) genDecorate(s int) (Op, bool) {
 		}
 	}
 	return op, true
+}
+
+func (g *gen) anyDecoCycle() bool {
+	for _, sc := range g.m.Scopes {
+		for _, c := range sc.Ctors {
+			if g.m.FindCycles(c).DecoCycle {
+				return true
+			}
+		}
+		for _, d := range sc.DecoL {
+			if g.m.FindCycles(d).DecoCycle {
+				return true
+			}
+		}
+	}
+	return false
+}
+
+func (g *gen) removeCtor(mf *MFn) {
+	sc := g.m.Scopes[mf.Home]
+	for i, c := range sc.Ctors {
+		if c == mf {
+			sc.Ctors = append(sc.Ctors[:i], sc.Ctors[i+1:]...)
+			break
+		}
+	}
+	delete(g.m.Fns, mf.ID)
 }
 
 func (g *gen) removeDeco(mf *MFn) {
